@@ -613,4 +613,132 @@ theorem removal_witness_flagged :
     routeHi 30 newRoute < routeLo 30 oldRoute := by
   refine ⟨by decide +kernel, by decide +kernel, by decide +kernel, by decide +kernel⟩
 
+/-! ### non-vacuity (fAudit): joint instances of the hypotheses of the theorems above -/
+
+section NonVacuity
+open AdaptaVerif.Model.Geometry (inPoly)
+open AdaptaVerif.Lemmas.Route (rectPoly)
+open AdaptaVerif.Lemmas.RerouteContains
+
+-- non-vacuity of `txnOf_spec` (both branches occur)
+example : (txnOf (AdaptaVerif.Model.ActionQueue.run AdaptaVerif.Model.ActionQueue.init [.addObst false 1 [⟨0, 0⟩, ⟨4, 0⟩, ⟨4, 4⟩, ⟨0, 4⟩]])
+    .processTransaction).isSome = true ∧
+    txnOf AdaptaVerif.Model.ActionQueue.init (.addObst false 1 [⟨0, 0⟩, ⟨4, 0⟩, ⟨4, 4⟩, ⟨0, 4⟩]) = none := by decide +kernel
+
+-- non-vacuity of `touched_or_blocked_edge_flags`, first disjunct: in the `Witness` state the first registered edge of
+-- connector 3 ends at a corner of obstacle 2, which is removed
+example := touched_or_blocked_edge_flags 3 (estLess 30 0) Witness.rp Witness.rp [{ kind := .remove, id := 2 }] Witness.rst0
+  (Witness.rst0.regs[0]'(by decide +kernel)) (by decide +kernel) (List.getElem_mem _) (by decide +kernel)
+  { kind := .remove, id := 2 } (by simp) (Or.inl ⟨Or.inl rfl, by decide +kernel⟩)
+-- … second disjunct: a square [-9,-7]×[5,8] added across that edge
+example := touched_or_blocked_edge_flags 3 (estLess 30 0) Witness.rp
+  (fun id => if id = 5 then rectPoly (-9) 5 (-7) 8 else Witness.rp id) [{ kind := .add, id := 5 }] Witness.rst0
+  (Witness.rst0.regs[0]'(by decide +kernel)) (by decide +kernel) (List.getElem_mem _) (by decide +kernel)
+  { kind := .add, id := 5 } (by simp) (Or.inr ⟨Or.inl rfl, by decide +kernel⟩)
+
+-- non-vacuity of `endpoint_change_flags`
+example := endpoint_change_flags 3 (estLess 30 0) Witness.rp Witness.rp
+  [{ kind := .connChange, id := 3, conns := [(.src, .pt ⟨0, 0⟩)] }] Witness.rst0 (by decide +kernel)
+  { kind := .connChange, id := 3, conns := [(.src, .pt ⟨0, 0⟩)] } (by simp) rfl rfl (by simp)
+  (Witness.rst0.regs[0]'(by decide +kernel)) (List.getElem_mem _) (by decide +kernel)
+
+-- non-vacuity of `covered_preserved` and `skip_sound_registration` (all hypotheses; one Move action): the scene `NV`
+example := covered_preserved 3 NV.route (estLess 30 0) (rpOf NV.sc) (rpOf (AdaptaVerif.Model.ActionQueue.runPasses NV.sc NV.acts))
+  NV.acts NV.rst (by decide) (covered_after_routing 3 _ (addConn true 3 {}) (by decide)) (by decide +kernel)
+example := skip_sound_registration 3 (estLess 30 0) (rpOf NV.sc) (rpOf (AdaptaVerif.Model.ActionQueue.runPasses NV.sc NV.acts))
+  NV.acts NV.rst (NV.rst.regs[0]'(by decide +kernel)) (by decide) (List.getElem_mem _) (by decide +kernel) (by decide +kernel)
+
+-- non-vacuity of `skip_sound_leg` and `skip_sound_route_valid` (strictly convex counter-clockwise shapes): the scene `NV`,
+-- old shape the square [10,12]², new shape the square [20,22]² (the Move action of `NV.acts`)
+example : ∀ l ∈ legs NV.route, ∀ s ∈ [rectPoly 20 20 22 22], segHitsOriented 1 0 s l.1 l.2 = false := by
+  have hC : ConvexCycle (polyEdges (rectPoly 20 20 22 22)) := ⟨by decide +kernel, by decide +kernel, by decide +kernel⟩
+  have hnov : ∀ v ∈ rectPoly 20 20 22 22, ∀ t : Rat, 0 < t → t < 1 → lerp (⟨0, 0⟩ : Pt) ⟨5, 0⟩ t ≠ v := by
+    intro v hv t _ _ h
+    have hy : (lerp (⟨0, 0⟩ : Pt) ⟨5, 0⟩ t).y = v.y := congrArg Pt.y h
+    simp only [lerp, sub_self, mul_zero, add_zero] at hy
+    simp only [rectPoly, List.mem_cons, List.not_mem_nil, or_false] at hv
+    rcases hv with rfl | rfl | rfl | rfl <;> simp at hy
+  have hleg := skip_sound_leg (rectPoly 20 20 22 22) (NV.rst.regs[0]'(by decide +kernel)) (by decide) hC (by decide +kernel)
+    (by unfold InsideOriented; decide +kernel) (by unfold InsideOriented; decide +kernel) hnov
+  refine skip_sound_route_valid 3 NV.route (estLess 30 0) (rpOf NV.sc)
+    (rpOf (AdaptaVerif.Model.ActionQueue.runPasses NV.sc NV.acts)) NV.acts NV.rst (by decide)
+    (covered_after_routing 3 _ (addConn true 3 {}) (by decide)) (by decide +kernel)
+    [rectPoly 10 10 12 12] [rectPoly 20 20 22 22] (by decide +kernel) ?_ ?_ ?_
+  · intro s hs
+    rw [List.mem_singleton] at hs; subst hs
+    exact Or.inr ⟨_, List.mem_singleton.mpr rfl, Or.inr rfl, by decide +kernel⟩
+  · intro s hs
+    rw [List.mem_singleton] at hs; subst hs
+    exact ⟨by decide, hC⟩
+  · intro l hl s hs
+    rw [List.mem_singleton] at hs; subst hs
+    have hl' : l = (⟨0, 0⟩, ⟨5, 0⟩) := by simpa [NV.route, legs] using hl
+    subst hl'
+    exact ⟨by unfold InsideOriented; decide +kernel, by unfold InsideOriented; decide +kernel, hnov⟩
+
+namespace NVC
+def sq0 : List Pt := [⟨3, -3⟩, ⟨3, 3⟩, ⟨-3, 3⟩, ⟨-3, -3⟩]          -- around the end point (0,0)
+def sq1 : List Pt := [⟨13, -3⟩, ⟨13, 3⟩, ⟨7, 3⟩, ⟨7, -3⟩]          -- away from it
+def rpOld : Polys := fun o => if o = 1 then sq0 else sq1
+def rpNew : Polys := fun o => if o = 2 then sq0 else sq1
+def acts : List Action := [{ kind := .move, id := 1 }, { kind := .add, id := 2 }]
+def cs : List CEntry := [{ key := VKey.ofEnd 9 .src, pt := ⟨0, 0⟩, ids := [1] }]
+end NVC
+
+open NVC in
+-- non-vacuity of `contains_incremental_eq_scratch` (all four hypotheses): obstacle 1 (around the end point) is moved
+-- away, obstacle 2 is added around it; old active set [1], new active set [2, 1]
+example : ∀ e ∈ cTxn [2, 1] rpNew acts cs, e.scratch [2, 1] rpNew := by
+  refine contains_incremental_eq_scratch [1] [2, 1] rpOld rpNew acts cs ?_ ?_ ?_ ?_
+  · intro o
+    simp only [acts, isRM, isAM, List.mem_cons, List.not_mem_nil, or_false, forall_eq_or_imp, forall_eq, exists_eq_or_imp,
+      exists_eq_left]
+    constructor
+    · rintro (rfl | rfl)
+      · exact Or.inr (Or.inr ⟨by decide, rfl⟩)
+      · exact Or.inr (Or.inl ⟨by decide, rfl⟩)
+    · rintro (⟨rfl, _⟩ | ⟨_, rfl⟩ | ⟨_, rfl⟩) <;> simp
+  · intro o _ h2 ho
+    simp only [List.mem_singleton] at ho
+    subst ho
+    exact h2 { kind := .move, id := 1 } (by simp [acts]) ⟨by decide, rfl⟩
+  · intro o h1 h2
+    have n1 : o ≠ 1 := fun e => h1 { kind := .move, id := 1 } (by simp [acts]) ⟨by decide, e.symm⟩
+    have n2 : o ≠ 2 := fun e => h2 ⟨{ kind := .add, id := 2 }, by simp [acts], by decide, e.symm⟩
+    simp [rpNew, rpOld, n1, n2]
+  · intro e he
+    simp only [cs, List.mem_singleton] at he
+    subst he
+    intro o
+    simp only [List.mem_singleton]
+    constructor
+    · rintro rfl; exact ⟨rfl, by decide +kernel⟩
+    · rintro ⟨h, _⟩; exact h
+
+-- non-vacuity of `removal_flag_complete` / `removal_complete_shorter_path` (hence of `removal_estimate_min_horizontal`) over
+-- K = ℚ with the 1-norm and an oracle that always answers "shorter": removed box [4,6]×[0,4], current route
+-- (0,5) → (5,20) → (10,5) of length L = 40, the path (0,5) → (5,4) → (10,5) through the top side has length 12
+example : couldBeShorter (fun _ _ _ _ => some true) (rectPoly 4 0 6 4) [⟨0, 5⟩, ⟨5, 20⟩, ⟨10, 5⟩] = some true := by
+  have hN : IsNorm (fun u v : Rat => |u| + |v|) :=
+    { tri := by intro u1 u2 v1 v2; have h1 := abs_add_le u1 v1; have h2 := abs_add_le u2 v2; show _ ≤ _; linarith
+      homog := by
+        intro k u1 u2 hk; show |k * u1| + |k * u2| = k * (|u1| + |u2|); rw [abs_mul, abs_mul, abs_of_nonneg hk]; ring
+      reflX := by intro u1 u2; show |-u1| + |u2| = |u1| + |u2|; rw [abs_neg]
+      reflY := by intro u1 u2; show |u1| + |-u2| = |u1| + |u2|; rw [abs_neg]
+      swap := by intro u1 u2; show |u1| + |u2| = |u2| + |u1|; rw [add_comm] }
+  refine removal_complete_shorter_path (fun u v : Rat => |u| + |v|) hN (fun _ _ _ _ => some true) (rectPoly 4 0 6 4)
+    [⟨0, 5⟩, ⟨5, 20⟩, ⟨10, 5⟩] ⟨0, 5⟩ ⟨10, 5⟩ rfl rfl 40 (fun _ _ => rfl) (by unfold Rectilinear; decide +kernel)
+    (⟨6, 4⟩, ⟨4, 4⟩) (by simp [rectPoly, polyEdges]) ⟨5, 4⟩ (Or.inl ⟨rfl, by decide +kernel, ?_, rfl, by decide +kernel, by decide +kernel⟩)
+    [⟨0, 5⟩] [⟨10, 5⟩] rfl rfl ?_
+  · norm_num
+  · simp only [List.cons_append, List.nil_append, polyLen, D]
+    norm_num [abs_of_nonneg, abs_of_nonpos]
+
+-- non-vacuity of `estLess_sound`: the hypothesis `estLess … = some b` occurs with both answers (`IsEuclid` holds for
+-- K = ℝ, `len p q = √dist2`; checked in scratch only — `Real.sqrt` is not imported here)
+example : estLess 30 0 ⟨0, 0⟩ ⟨10, 0⟩ ⟨5, 1⟩ [⟨0, 0⟩, ⟨5, 20⟩, ⟨10, 0⟩] = some true ∧
+    estLess 30 0 ⟨0, 0⟩ ⟨10, 0⟩ ⟨5, 30⟩ [⟨0, 0⟩, ⟨5, 20⟩, ⟨10, 0⟩] = some false := by decide +kernel
+
+end NonVacuity
+
 end AdaptaVerif.Props.C06Reroute
